@@ -76,7 +76,7 @@ def oracle(req, ans):
     for n, (op, tok) in enumerate(zip(ops, toks)):
         a = op.split(",")
         res, rest = tok.split("=", 1)
-        rows_s, cols_s, pool = rest.split("|")
+        rows_s, cols_s, pool = rest.split("|")[:3]
         want = 0
         if a[0] == "i":
             want = 0 if (int(a[1]), int(a[2])) in S else 1; S.add((int(a[1]), int(a[2])))
@@ -149,10 +149,13 @@ def run(c):
     for k, se in crashes[:8]:
         c.violation("sparse matrix operation sequence crashed: %s" % ans[k][:200], "sparse-crash",
                     {"stream": "sparse", "request": reqs[k][:2000], "stderr": se})
-    ml = None
+    ml = None; il = None
     try:
         rc, mout, merr = vlib.sh([vlib.ocaml_model()], input="\n".join(reqs) + "\n", timeout=1800)
         ml = mout.splitlines()
+        # entry-identity model (SparseId.v): the name (block, slot) of every entry and the free list after every op
+        rc, mout, merr = vlib.sh([vlib.ocaml_model()], input="\n".join("S" + r[1:] for r in reqs) + "\n", timeout=1800)
+        il = mout.splitlines()
     except vlib.BuildError as e:
         c.proof_failed.append({"model_build": str(e)[-1500:]})
     nops = 0
@@ -163,9 +166,24 @@ def run(c):
         msg = oracle(rq, ans[i])
         if msg:
             c.violation(msg, "sparse-set", {"stream": "sparse", "request": rq[:3000], "c_answer": ans[i][:3000]})
-        elif ml is not None and (i >= len(ml) or ml[i] != ans[i]):
-            c.proof_failed.append({"correspondence": "sparse", "request": rq[:1500], "c": ans[i][:1500], "model": (ml[i] if i < len(ml) else "")[:1500]})
-            ml = None
+        else:
+            ctoks = ans[i].split()[1:]
+            base = "R " + " ".join("|".join(t.split("|")[:3]) for t in ctoks)
+            names = ["|".join(t.split("|")[3:]) for t in ctoks]
+            if ml is not None and (i >= len(ml) or ml[i] != base):
+                c.proof_failed.append({"correspondence": "sparse", "request": rq[:1500], "c": base[:1500], "model": (ml[i] if i < len(ml) else "")[:1500]})
+                ml = None
+            if il is not None:
+                mt = il[i].split()[1:] if i < len(il) else []
+                for n_, (x, y) in enumerate(zip(names, mt)):
+                    if y == "-":
+                        break
+                    c.cov["entry_name_states_compared"] = c.cov.get("entry_name_states_compared", 0) + 1
+                    if x != y:
+                        c.proof_failed.append({"correspondence": "sparse/entry-names", "request": rq[:1500], "after_op": n_, "c": x[:800], "model": y[:800],
+                                               "note": "which slot of which block holds each entry, and the order of the free list, differ from the entry-identity model SparseId.v"})
+                        il = None
+                        break
         for op in rq.split()[3:]:
             c.dist(op[0])
     c.cov["evaluations"] = nops
